@@ -172,6 +172,14 @@ def _extract_one(unit, src, flags, files_re, fn_re, no_body, out, rest_light=Fal
         if os.path.exists(out):       # another process running the same check produced it meanwhile
             return unit, True, ""
         return unit, False, ("exit %s " % p.returncode) + (p.stderr or "")[-2000:]
+    # the cache holds /repo paths whatever root was analysed, so that an entry can be shared between roots
+    rt = os.environ.get("VERIF_ROOT")
+    if rt and rt != REPO:
+        with open(tmp, "r", encoding="utf-8", errors="surrogateescape") as fh:
+            txt = fh.read()
+        if rt + "/" in txt:
+            with open(tmp, "w", encoding="utf-8", errors="surrogateescape") as fh:
+                fh.write(txt.replace(rt + "/", REPO + "/"))
     os.replace(tmp, out)
     return unit, True, ""
 
@@ -266,6 +274,55 @@ class Facts:
         return self.enums[q]
 
 
+_headers_hash = {}
+
+
+def headers_hash(root=None):
+    """Content hash, by path relative to the source root, of everything a unit can #include: headers and .inc files under the
+    analysed root (falling back to /repo for directories a scratch copy does not carry) and the build's generated includes.
+    Together with the unit's own text it keys the cache, so that editing one .cpp re-extracts one unit, editing a header all."""
+    root = root or REPO
+    if root in _headers_hash:
+        return _headers_hash[root]
+    h = hashlib.sha1()
+    entries = []
+    seen = {}
+    for d in ("opm", "tests", "msim", "examples", "python/cxx"):
+        # a scratch root is searched first (-I<root>) and /repo afterwards: what the root lacks is found in /repo
+        for base in ([os.path.join(REPO, d)] + ([os.path.join(root, d)] if root != REPO else [])):
+            for dp, dn, fn in os.walk(base):
+                for f in fn:
+                    if f.endswith((".hpp", ".h", ".inc", ".hh")):
+                        full = os.path.join(dp, f)
+                        seen[os.path.join(d, os.path.relpath(full, base))] = full
+    entries += list(seen.items())
+    for extra in (os.path.join(BUILD, "include"), os.path.join(BUILD, "config.h")):
+        if os.path.isfile(extra):
+            entries.append(("_build/" + os.path.basename(extra), extra))
+        else:
+            for dp, dn, fn in os.walk(extra):
+                for f in fn:
+                    full = os.path.join(dp, f)
+                    entries.append(("_build/include/" + os.path.relpath(full, extra), full))
+    for rel, full in sorted(entries):
+        h.update(rel.encode())
+        try:
+            with open(full, "rb") as fh:
+                h.update(hashlib.sha1(fh.read()).digest())
+        except OSError:
+            h.update(b"?")
+    _headers_hash[root] = h.hexdigest()
+    return _headers_hash[root]
+
+
+def _file_sha(path):
+    try:
+        with open(path, "rb") as fh:
+            return hashlib.sha1(fh.read()).hexdigest()
+    except OSError:
+        return "?"
+
+
 _extractor_version = None
 
 
@@ -286,7 +343,7 @@ def extract(units, files_re=None, fn_re=None, no_body=False, root=None, rest_lig
     if not os.path.exists(OPMFACTS):
         raise AnalysisBroken("bin/opmfacts not built (run tool/build.sh)")
     root = root or os.environ.get("VERIF_ROOT") or REPO
-    th = tree_hash(root)
+    hh = headers_hash(root)
     os.makedirs(CACHE, exist_ok=True)
     jobs = []
     outs = []
@@ -296,7 +353,7 @@ def extract(units, files_re=None, fn_re=None, no_body=False, root=None, rest_lig
         src = os.path.join(root, rel) if root != REPO and os.path.exists(os.path.join(root, rel)) else unit
         if not os.path.exists(src):
             raise AnalysisBroken("anchor unit %s does not exist" % rel)
-        key = hashlib.sha1(json.dumps([th, rel, files_re, fn_re, no_body, root, rest_light, extractor_version()]).encode()).hexdigest()[:24]
+        key = hashlib.sha1(json.dumps([hh, rel, _file_sha(src), files_re, fn_re, no_body, rest_light, extractor_version(), sorted(unit_flags(unit, None))]).encode()).hexdigest()[:24]
         out = os.path.join(CACHE, key + ".jsonl")
         outs.append((unit, out))
         if not os.path.exists(out):
